@@ -112,8 +112,10 @@ def atom_of(c):
     if a[0] == "call" and a[1].endswith("from_be_bytes") and T.has_call(a, "::payload"):
         r = _ranges_in(a)
         return "be[%s]%s%d" % (",".join("%s..%s" % x for x in r), REL_SYM[op], kb)
-    if T.has_call(a, "::payload") and a[0] in ("index", "deref", "cindex"):
+    if T.has_call(a, "::payload") and a[0] in ("index", "deref", "cindex", "field", "downcast"):
         idx = fold(a[2]) if a[0] == "index" else None
+        if idx is None and T.has_call(a, "::first"):
+            idx = 0
         return "optbyte[%s]%s%d" % (idx, REL_SYM[op], kb)
     return None
 
@@ -284,7 +286,7 @@ def rule_R1_options(ctx):
                 arr = T.strip(inner[2][0])
                 idx = [fold(T.strip(e)[2]) for e in arr[4] if T.strip(e)[0] == "index"] if arr[0] == "agg" else []
                 okmss = idx == [0, 1] and "optlen>=2" in conds
-            if "opt==3" in conds and inner[0] in ("index", "deref", "call", "cindex") and T.has_call(inner, "::payload"):
+            if "opt==3" in conds and inner[0] in ("index", "deref", "call", "cindex", "field", "downcast") and T.has_call(inner, "::payload"):
                 okws = True
     ctx.check(okmss, "R5", "mss-decode", "mss = be16(payload[0..2]) under len >= 2", "MSS is not decoded as big-endian payload[0],payload[1] under a length guard", ctx.loc(b))
     ctx.check(okws, "R5", "wscale-decode", "wscale = first payload byte of the WS option", "window scale is not taken from the WS option payload", ctx.loc(b))
